@@ -9,6 +9,7 @@ import (
 	"fmt"
 	"os"
 	"path/filepath"
+	"regexp"
 	"sort"
 	"strings"
 	"time"
@@ -60,17 +61,26 @@ func (e *Env) sample(s any) {
 	}
 }
 
-// violate records a violation; at most 12 per kind are kept (a flood of one kind - e.g. a recorded finding - must not
-// crowd out violations of another kind).
+// violate records a violation. At most 8 violations per "shape" (kind + detail with numbers, identifiers and quoted
+// strings blanked) and 250 per kind are kept: a flood of one shape - e.g. a recorded finding - must not crowd out a
+// violation of another kind or of another shape of the same kind.
 func (e *Env) violate(kind, detail string, replay any) {
 	if e.perKind == nil {
 		e.perKind = map[string]int{}
 	}
+	shape := kind + "|" + shapeRe.ReplaceAllString(detail, "#")
+	if len(shape) > 200 {
+		shape = shape[:200]
+	}
 	e.perKind[kind]++
-	if e.perKind[kind] <= 12 && len(e.Res.Violations) < 600 {
+	e.perKind[shape]++
+	if e.perKind[shape] <= 8 && e.perKind[kind] <= 250 && len(e.Res.Violations) < 4000 {
 		e.Res.Violations = append(e.Res.Violations, Violation{kind, detail, replay})
 	}
 }
+
+var shapeRe = regexp.MustCompile(`"[^"]*"|bae-[0-9a-f-]+|baf[a-z0-9]+|[0-9]+(\.[0-9]+)?`)
+
 func (e *Env) thorough() bool { return e.Tier == "thorough" }
 
 // writeCases writes a Coq case file: header imports module `mod`, `cases` has type `ty`.
